@@ -4,6 +4,7 @@ pub mod mapgen;
 pub mod rng;
 
 pub mod c02;
+pub mod c03;
 pub mod c04;
 pub mod c07;
 pub mod c14;
